@@ -16,7 +16,7 @@ LEVEL_TEXT = ('partial. Lean 4 theorems (exact arithmetic): rescaling by s divid
               'interpolation grid is uniform with spacing 1/s and maps centre to centre; at s = 1 every output sample is interpolated at its own '
               'integer coordinate, so the operation is the identity for any interpolator reproducing samples there; a constant aperture keeps its '
               'power up to the one-sample rim (n0 n1 a^2 <= P\' <= (n0+1/s)(n1+1/s) a^2) because the amplitude is divided by s; on the regenerated grid (order 0, mode constant) every resampled mask layer '
-              'takes only the values 0/1, the number of layers is kept and, at samples whose coordinate lies inside the input array, the union of disjoint segments is the resampled union (resampled_layers_binary_count_union); disjoint segments stay disjoint on the whole output grid (segments_stay_disjoint_on_grid), also after the post-mask factor of util.rescale (segments_stay_disjoint_with_postmask), and on the rim beyond the first/last input sample every segment is zero (a border-filling mask loses its trailing rim: all-ones 5x5 at s = 2 keeps 81 of 100); a plane rescaled by 1 keeps pixel scale, factors, shape and samples every array at its own integer coordinates (plane_rescale_one_is_identity); s then 1/s returns pixel scale and (for integer n*s) shape; the grid of util.rescale is REGENERATED from the source (each axis centred and sized with its own lengths); the original is untouched (regenerated effect table); the explicit shape= argument of util.rescale (scalar and pair branches REGENERATED: Gen.rescaleCeilArgScalar/rescaleCeilArgPair) gives ceil(m*s) samples per axis from its own entry, equals the default for the image's own shape (rescale_explicit_shape) and changes the field of view only — same coordinates shifted by c samples when the sizes differ by 2c, m input samples covered to within one output sample (explicit_shape_same_sampling); complex images are interpolated part by part on the same grid under the support of img != 0 and agree with the real path when the imaginary part vanishes (complex_rescale_by_parts, over the regenerated Gen.rescaleComplexParts). Compared with the code on every case: shapes, '
+              'takes only the values 0/1, the number of layers is kept and, at samples whose coordinate lies inside the input array, the union of disjoint segments is the resampled union (resampled_layers_binary_count_union); disjoint segments stay disjoint on the whole output grid (segments_stay_disjoint_on_grid), also after the post-mask factor of util.rescale (segments_stay_disjoint_with_postmask), and on the rim beyond the first/last input sample every segment is zero (a border-filling mask loses its trailing rim: all-ones 5x5 at s = 2 keeps 81 of 100); a plane rescaled by 1 keeps pixel scale, factors, shape and samples every array at its own integer coordinates (plane_rescale_one_is_identity); s then 1/s returns pixel scale and (for integer n*s) shape; the grid of util.rescale is REGENERATED from the source (each axis centred and sized with its own lengths); the original is untouched (regenerated effect table); the explicit shape= argument of util.rescale (scalar and pair branches REGENERATED: Gen.rescaleCeilArgScalar/rescaleCeilArgPair) gives ceil(m*s) samples per axis from its own entry, equals the default for the own shape of the image (rescale_explicit_shape) and changes the field of view only — same coordinates shifted by c samples when the sizes differ by 2c, m input samples covered to within one output sample (explicit_shape_same_sampling); complex images are interpolated part by part on the same grid under the support of img != 0 and agree with the real path when the imaginary part vanishes (complex_rescale_by_parts, over the regenerated Gen.rescaleComplexParts). Compared with the code on every case: shapes, '
               'per-axis pixel scale, the amplitude factor 1/s on top of util.rescale, the whole interpolation grid, refusals. Power/image/amplitude/OPD '
               'preservation "to interpolation accuracy" is measured, not proved.')
 LEVEL_NOTE = ('partial: bookkeeping theorems over a hand model whose grid (shape argument, row/column coordinates, coordinate order) is regenerated from util.py (Gen/RescaleGrid.lean, now including the shape= scalar/pair branches, the complex real/imag branch and the interpolation keyword options, exercised by a direct util.rescale stream: explicit shapes compared with the model op rs.coords_arg, complex results with an independent scipy part-by-part reference); the wiring of Plane.rescale/resample (copy, ndim guards, /scale, interpolation options, binarise/cast/slice, per-axis pixel scale, guards) is regenerated too (Gen/PlaneRescale.lean, plane_rescale_wiring); cubic-spline interpolation accuracy (scipy map_coordinates) is an '
